@@ -10,11 +10,14 @@ import (
 	"flag"
 	"fmt"
 	"math/big"
+	"math/rand"
 	"os"
 	"strings"
 	"time"
 
 	dbm "github.com/cometbft/cometbft-db"
+	abci "github.com/cometbft/cometbft/abci/types"
+	codectypes "github.com/cosmos/cosmos-sdk/codec/types"
 	sdk "github.com/cosmos/cosmos-sdk/types"
 	txtypes "github.com/cosmos/cosmos-sdk/types/tx"
 	gogoproto "github.com/cosmos/gogoproto/proto"
@@ -51,6 +54,8 @@ type Behaviour struct {
 	Genesis json.RawMessage `json:"genesis"` // abstract state, or "default"
 	Weak    *WeakHash       `json:"weak,omitempty"`
 	Steps   []M             `json:"steps"`
+	Driver  int             `json:"driver"` // number of code-led driver steps appended to Steps
+	Probes  int             `json:"probes"` // after every step: this many driver messages tried on throw-away branches of the state
 
 	weakResolved bool
 }
@@ -71,6 +76,8 @@ type runner struct {
 	blockSteps int
 	lastData   *DataState
 	lastX      *IntertxState
+	skipped    string
+	pdrv       *driver
 }
 
 func noneResp() M { return M{"none": true} }
@@ -167,6 +174,19 @@ func (r *runner) run() {
 		r.step(cloneM(m)) // the concretiser rewrites amount leaves; keep the behaviour pristine for replicas
 		if r.fatal != "" {
 			return
+		}
+	}
+	if b.Driver > 0 && b.Family != "data" && b.Family != "intertx" {
+		d := &driver{rng: rand.New(rand.NewSource(b.Seed*7 + 13))}
+		for i := 0; i < b.Driver; i++ {
+			last := r.lines[len(r.lines)-1].St
+			if last == nil {
+				break
+			}
+			r.step(cloneM(d.next(last)))
+			if r.fatal != "" {
+				return
+			}
 		}
 	}
 }
@@ -273,6 +293,82 @@ func (r *runner) step(m M) {
 		r.queries(ob, int(num(m, "n")), st)
 	}
 	r.lines = append(r.lines, &Line{K: "step", Ev: ev, St: st, Ds: r.lastData, Xs: r.lastX, Ob: ob})
+	if r.b.Probes > 0 && st != nil && typ != "ExportImport" && typ != "Replica" && typ != "Query" {
+		r.probes(st)
+	}
+}
+
+// probes tries driver messages on throw-away branches of the current state: each
+// is logged as a "probe" line (the state the message WOULD produce) followed by a
+// "restore" line (the unchanged main state).  The handler is reached through the
+// message router on a cache context: ValidateBasic and panic recovery are done
+// here as runTx does them.
+func (r *runner) probes(st *State) {
+	if r.pdrv == nil {
+		r.pdrv = &driver{rng: rand.New(rand.NewSource(r.b.Seed*31 + 5))}
+	}
+	for j := 0; j < r.b.Probes; j++ {
+		m := cloneM(r.pdrv.next(st))
+		typ := str(m, "type")
+		if typ == "BeginBlock" {
+			continue
+		}
+		delete(m, "dom")
+		msg, err := r.prof.Concretise(m)
+		if err != nil {
+			r.fatal = err.Error()
+			return
+		}
+		signers := []string{}
+		for _, s := range msg.GetSigners() {
+			signers = append(signers, Name(s))
+		}
+		ev := M{"type": typ, "m": m, "dom": "driver", "resp": noneResp(), "signers": signers, "ok": false}
+		ob := M{"panicked": false, "probe": true}
+		ctx := r.app.Ctx()
+		cctx, _ := ctx.CacheContext()
+		var res *sdk.Result
+		func() {
+			defer func() {
+				if p := recover(); p != nil {
+					err = fmt.Errorf("recovered: %v", p)
+					ob["panicked"] = true
+				}
+			}()
+			if err = msg.ValidateBasic(); err != nil {
+				return
+			}
+			h := r.app.ba.MsgServiceRouter().Handler(msg)
+			if h == nil {
+				err = fmt.Errorf("no handler")
+				return
+			}
+			res, err = h(cctx, msg)
+		}()
+		var pst *State
+		var notes *Notes
+		if err == nil && res != nil {
+			ev["ok"] = true
+			if len(res.MsgResponses) == 1 {
+				ev["resp"] = r.respOfAny(res.MsgResponses[0], res.Events)
+			}
+			pst, notes = r.app.ProjectEco(cctx)
+		} else {
+			ob["log"] = firstLine(fmt.Sprint(err))
+			pst, notes = r.app.ProjectEco(ctx)
+		}
+		for k, v := range obsOf(notes) {
+			ob[k] = v
+		}
+		ob["inv_batch_supply"], ob["inv_basket_supply"] = "", ""
+		r.lines = append(r.lines, &Line{K: "probe", Ev: ev, St: pst, Ob: ob})
+		// back to the main state
+		rst, rnotes := r.app.ProjectEco(ctx)
+		rob := obsOf(rnotes)
+		rob["inv_batch_supply"], rob["inv_basket_supply"], rob["panicked"] = "", "", false
+		r.lines = append(r.lines, &Line{K: "restore", St: rst, Ob: rob,
+			Ev: M{"type": "Restore", "m": M{"type": "Restore"}, "ok": true, "resp": noneResp(), "signers": []string{}, "dom": "spec"}})
+	}
 }
 
 func firstLine(s string) string {
@@ -291,8 +387,13 @@ func (r *runner) respOf(typ string, res DeliverResult) M {
 	if err := gogoproto.Unmarshal(res.Data, &data); err != nil || len(data.MsgResponses) != 1 {
 		return M{"undecodable": true}
 	}
+	return r.respOfAny(data.MsgResponses[0], res.Events)
+}
+
+func (r *runner) respOfAny(packed *codectypes.Any, events []abci.Event) M {
+	res := DeliverResult{Events: events}
 	var resp txtypes.MsgResponse
-	if err := r.app.reg.UnpackAny(data.MsgResponses[0], &resp); err != nil {
+	if err := r.app.reg.UnpackAny(packed, &resp); err != nil {
 		return M{"undecodable": true}
 	}
 	switch v := resp.(type) {
@@ -428,9 +529,9 @@ func (r *runner) normalise() {
 			// too coarse for the price arithmetic of the marketplace; credits-only traces
 			l.St.Unit.Un, l.St.Unit.Ud = 0, 1
 		}
-		if overflow {
-			l.Ob["overflow"] = append(l.Ob["overflow"].([]string), "amount does not fit after normalisation")
-		}
+	}
+	if overflow {
+		r.skipped = "an amount does not fit 2^30 units after normalisation: outside the explored domain"
 	}
 }
 
@@ -442,6 +543,12 @@ func (r *runner) write(w *bufio.Writer) {
 		return
 	}
 	r.normalise()
+	if r.skipped != "" {
+		bz, _ := json.Marshal(M{"k": "skipped", "id": r.b.ID, "why": r.skipped})
+		w.Write(bz)
+		w.WriteByte('\n')
+		return
+	}
 	for _, l := range r.lines {
 		bz, err := json.Marshal(l)
 		must(err)
